@@ -165,7 +165,7 @@ def solve(facts, goal_neg, timeout_ms=20000, label=None, want_model=True):
             s.add(f)
         for g in goals:
             s.add(g)
-        r = s.check()
+        r = E.guarded_check(s, max(1000, int(timeout_ms * share)))
         if r != z3.unknown:
             break
     dt = time.time() - t0
